@@ -18,6 +18,9 @@ from cell_type_mapper.utils.csc_to_csr import (
 )
 
 
+import cell_type_mapper.utils.verif_hooks as verif_hooks
+
+
 def transpose_sparse_matrix_on_disk_v2(
         h5_path,
         indices_tag,
@@ -209,6 +212,8 @@ def _transpose_subset_of_indices(
         max_gb=12):
     use_data = (data_tag is not None)
 
+    verif_hooks.gate('transpose.before', i0=int(indices_slice[0]))
+
     with h5py.File(h5_path, 'r', swmr=True) as src:
         indices_handle = src[indices_tag]
         indptr_handle = src[indptr_tag]
@@ -227,7 +232,11 @@ def _transpose_subset_of_indices(
             verbose=False,
             indices_slice=indices_slice)
 
+    verif_hooks.gate('transpose.mid', i0=int(indices_slice[0]))
+
     with h5py.File(output_path, 'a') as dst:
         dst.create_dataset(
             'indices_slice',
             data=np.array(indices_slice))
+
+    verif_hooks.gate('transpose.after', i0=int(indices_slice[0]))
